@@ -19,7 +19,8 @@ from harness.translate import c10_quant as T
 
 PROP_ID = "C10"
 COQ_PROPS = "theories/Props/C10.v"
-COQ_EXTRA = ["gen/C10_gen.v", "gen/C10_more_gen.v", "theories/Quant/QuantExamples.v"]
+COQ_EXTRA = ["gen/C10_gen.v", "gen/C10_more_gen.v", "theories/Quant/QuantExamples.v",
+             "theories/Quant/QuantTimeFacts.v"]   # duration-generic QuantizedTime proof (pulls in Quant/QuantTime*.v)
 EXTRACT = None
 TRUSTED = [
     "C10 model evaluated by Coq's vm_compute on primitive floats/ints (PrimFloat, Uint63): the kernel's binary64 "
@@ -35,6 +36,23 @@ TRUSTED = [
     "checksum over all raws + sampled literals, and of encode on a structured set of floats, re-checked by Coq each run",
     "QuantizedTime: exhaustive over raws only for the declared list of durations (theorem *_partial); the statement "
     "for every positive finite F32 duration is NOT proved",
+    "QuantizedTime, duration-generic (supersedes the 'NOT proved' of the previous entry): all six clauses (round trip "
+    "over all 65536 raws, strict monotonicity, bit-exact end points, end points encode to 0/65535) ARE proved for EVERY "
+    "binary64 duration 2^-1000 <= d <= 2^1000, hence every positive finite F32, by real-number error analysis through "
+    "Flocq IEEE754.PrimFloat: Quant/QuantTimeFacts.v qtime_facts_generic and Quant/QuantTimeGeneric.v "
+    "qtime_roundtrip_generic, compiled on every run (COQ_EXTRA). These two theorems are NOT closed under the global "
+    "context; Print Assumptions shows exactly these standard-library axioms (none declared in this tree): "
+    "ClassicalDedekindReals.sig_forall_dec, ClassicalDedekindReals.sig_not_dec, Classical_Prop.classic, "
+    "FunctionalExtensionality.functional_extensionality_dep (Coq Reals); FloatAxioms.Prim2SF_SF2Prim, "
+    "FloatAxioms.Prim2SF_valid, FloatAxioms.SF2Prim_Prim2SF, FloatAxioms.abs_spec, FloatAxioms.add_spec, "
+    "FloatAxioms.div_spec, FloatAxioms.eqb_spec, FloatAxioms.frshiftexp_spec, FloatAxioms.leb_spec, "
+    "FloatAxioms.ltb_spec, FloatAxioms.mul_spec, FloatAxioms.normfr_mantissa_spec, FloatAxioms.of_uint63_spec, "
+    "FloatAxioms.sub_spec (the stdlib's specification of the primitive binary64 operations against SpecFloat); "
+    "Uint63.add_spec, Uint63.eqb_correct, Uint63.eqb_refl, Uint63.land_spec, Uint63.leb_spec, Uint63.lor_spec, "
+    "Uint63.lsl_spec, Uint63.lsr_spec, Uint63.ltb_spec, Uint63.of_to_Z, Uint63.sub_spec (primitive 63-bit integers); "
+    "plus the kernel primitives PrimFloat.* / PrimInt63.* themselves. The theorem is not yet restated in Props/C10.v "
+    "because framework.ALLOWED_AXIOMS rejects the two ClassicalDedekindReals axioms: ready patch in "
+    ".proposed/C10-quanttime-generic-props.diff",
     "instance discovery: reflective walk from se.SUBFIELD_SERIALIZERS and the module globals of hippolyzer.lib.base.*; "
     "an instance constructed only inside a function body at run time would not be seen",
 ]
